@@ -2,10 +2,11 @@
 import random
 
 from harness import dag
-from harness.core import Log, Result, run_async, run_sync
+from harness.core import set_case, Log, Result, run_async, run_sync
 
 
 def check_spec(spec, res, runner_name, run):
+    set_case("C01", spec, runner_name)
     try:
         g, log = dag.build(spec)
     except Exception as e:  # noqa: BLE001 - a valid program must build
@@ -63,6 +64,11 @@ def run(tier, seed, functions):
 
 
 def replay(rep):
+    from harness.monitor import Monitors
+    mon = Monitors(only={rep["monitor"]}).arm() if rep.get("monitor") else None
     res = Result("C01", "", {})
     check_spec(rep["spec"], res, rep["runner"], run_sync if rep["runner"] == "sync" else run_async)
+    if mon:
+        mon.disarm()
+        return [f["what"] for f in mon.failures]
     return [f["what"] for f in res.failures]
